@@ -10,6 +10,15 @@ CFG = {
     "c12_q_event_number_step": dict(arith=True, arith_focus=["next_event_number"], cost=40),
     "c12_t_event_number_schedule4": dict(arith=True, arith_focus=["next_event_number"], cost=300, timeout_s=1800),
     "c04_t_group_store_full_eviction": dict(cost=120, timeout_s=1800),
+    "c04_q_session_first_two_messages": dict(cost=120),
+    "c07_q_remove_for_fabric": dict(cost=200, mem_gb=24, timeout_s=900),
+    "c20_q_pase_purge": dict(cost=200, mem_gb=24, timeout_s=900),
+    "c20_q_eviction_choice": dict(cost=150),
+    "c10_q_exchange_matching_and_gate": dict(cost=200, mem_gb=16),
+    "c10_q_exchange_table_full": dict(cost=150, mem_gb=16),
+    "c15_q_retransmission_identical_header": dict(cost=150),
+    "c15_q_send_counter_strictly_increases": dict(cost=150),
+    "c18_q_ringbuf8_fifo": dict(cost=200),
 }
 
 COMMON_ASSUMPTIONS = [
